@@ -42,7 +42,9 @@ FALLBACK = {'try_none': None, 'try_zero': 0, 'try_nan': 'NaN', 'try_true': True,
 FALLBACK_J = {'try_none': 'JNone', 'try_zero': '(JZ 0)', 'try_nan': '(JS "NaN")', 'try_true': '(JS "True")', 'try_false': '(JS "False")', 'try_list': '(JL [])'}
 LOOPV = ['loop', 'loop_dict', 'loop_tuple_dict', 'loop_all']
 # argument VALUES of other kinds: the int v of a case stands for KOBJ[v]; results are translated back, so the model stays over ints
-KOBJ = {1: 'one', 2: 'two', 3: 2.5, 4: (1, 2), 5: {'x': 1}, 6: (3,), 10: -7.25, 11: float('inf'), 12: b'x', 13: frozenset({1}), 14: '', 15: b''}     # no value that is also a try_* fallback
+import numpy as _np
+KOBJ = {1: 'one', 2: _np.int32(2), 3: 2.5, 4: (1, 2), 5: {'x': 1}, 6: (3,), 10: -7.25, 11: float('inf'), 12: _np.int16(12), 13: frozenset({1}), 14: '',
+        15: _np.int64(15)}     # numpy integer SCALARS are not arrays: pd2np must hand them on untouched; no value that is also a try_* fallback
 _KINDS = [False]
 # codes 50..59 stand for pandas objects, code + 10 for their numpy values (pd2np cases)
 _PD = {}
@@ -64,13 +66,14 @@ def encode_kind(v):
     return KOBJ.get(v, v)
 def uncode(x):
     if type(x) is int: return x
-    if type(x).__module__.split('.')[0] in ('pandas', 'numpy'):
+    if type(x).__module__.split('.')[0] in ('pandas', 'numpy') and not isinstance(x, _np.generic):
         c = uncode_pd(x)
-        return x if c is None else c
+        return '<%s>' % type(x).__name__ if c is None else c
     if not _KINDS[0]: return x
     for v, o in KOBJ.items():
         if type(o) is type(x) and o == x: return v
-    return x
+    if x is None or isinstance(x, (bool, str)): return x
+    return '<%s %r>' % (type(x).__name__, x)          # not one of the values that were passed (e.g. a converted copy)
 
 NAMES = ['a', 'b', 'c', 'd']
 RESERVED = ['axis', 'self', 'function']      # parameter names that collide with the wrappers' own argument names (KNOWN FINDING c18_reserved_parameter_names)
@@ -152,7 +155,7 @@ def BIND(named, args, kw):
 def RAISE():
     return 1 // 0
 
-def make_f(case, raises=False):
+def make_f(case, raises=False, spelled=True):
     n, nd = case['npos'], case['ndef']
     NM = pnames(case)
     params = [NM[i] + ('=%d' % (100 + i) if i >= n - nd else '') for i in range(n)]
@@ -162,6 +165,25 @@ def make_f(case, raises=False):
     params += [x + ('=%d' % dv if dv is not None else '') for x, dv in ko]        # keyword-only parameters
     if case['vk']: params.append('**kw')
     body = 'RAISE()' if raises else 'BIND(dict(%s), %s, %s)' % (', '.join('%s=%s' % (x, x) for x in NM + [x for x, _ in ko]), 'args' if case['va'] else 'None', 'kw' if case['vk'] else 'None')
+    if spelled and case.get('partial') and ko and all(dv is not None for _, dv in ko):
+        # the same signature spelled as functools.partial(g, k = 7, ...): keywords a partial pre-binds become keyword-only parameters with that default
+        import functools
+        params = [NM[i] + ('=%d' % (100 + i) if i >= n - nd else '') for i in range(n)]
+        if case['va']: params.append('*args')
+        params += ['%s=0' % x for x, _ in ko]
+        if case['vk']: params.append('**kw')
+        return functools.partial(eval('lambda %s: %s' % (', '.join(params), body), {'BIND': BIND, 'RAISE': RAISE}), **{x: dv for x, dv in ko})
+    if spelled and case.get('ann'):
+        # the same function with annotations on parameters, *args, **kw and the return value
+        ANN = ['int', "'text'", 'float', 'list']
+        ptxt = []
+        for i, ptext in enumerate(params):
+            name, eq, dflt = ptext.partition('=')
+            if name == '*': ptxt.append('*'); continue
+            ptxt.append('%s: %s%s' % (name, ANN[i % 4], ' = ' + dflt if eq else ''))
+        env = {'BIND': BIND, 'RAISE': RAISE}
+        exec('def annotated(%s) -> dict:\n    return %s' % (', '.join(ptxt), body), env)
+        return env['annotated']
     return eval('lambda %s: %s' % (', '.join(params), body), {'BIND': BIND, 'RAISE': RAISE})
 
 def outcome(f, *a, **k):
@@ -215,6 +237,7 @@ def chain_of(w):
 def impl_stack(case):
     decos = case['decos']
     f = make_f(case, case['raises'])
+    f_ref = make_f(case, case['raises'], spelled=False)          # the plain spelling of the same signature, for inspect.getcallargs
     variant = {'try_none': case.get('tryv', 'try_none'), 'loop': case.get('loopv', 'loop')}
     def DD(d):
         if d == 'pd2np' and 'exc' in case:             # pd2np built with an exclusion list, in each accepted spelling
@@ -254,9 +277,9 @@ def impl_stack(case):
     elif again_inner != [TYPE_OF[decos[0]]] + [x for x in chain if x != TYPE_OF[decos[0]]]:
         viol = 'wrapping %r again with %s through the chain gives %r' % (decos, decos[0], again_inner)
     elif not spec_ok: viol = 'getargspec of the stack %r differs from that of %s' % (decos, sig_text(case))
-    elif not same_object: viol = 'W(W(f)) == W(f) is False for the stack %r re-wrapped with %s' % (decos, decos[-1])
+    elif not same_object and not case.get('partial'): viol = 'W(W(f)) == W(f) is False for the stack %r re-wrapped with %s' % (decos, decos[-1])
     try:
-        inspect.getcallargs(f, *a, **k); valid = True
+        inspect.getcallargs(f_ref, *a, **k); valid = True
     except TypeError:
         valid = False
     declared = pnames(case) + [x for x, _ in case.get('ko', [])]          # getargs: positional names, then keyword-only names
@@ -268,7 +291,7 @@ def impl_stack(case):
             if not case['vk']:
                 k2 = {x: y for x, y in k.items() if x in declared}        # ignores exactly the undeclared keywords
                 try:
-                    inspect.getcallargs(f, *a, **k2); claim = True
+                    inspect.getcallargs(f_ref, *a, **k2); claim = True
                 except TypeError:
                     claim = False
         a_f, k2_f = a, k2
@@ -617,7 +640,12 @@ def gen_cases(rng, tier):
         d = rng.choice(DECOS)
         if d == 'loop' and ko_deviates(sig, call, 'loop') and not INCLUDE_KWONLY_DEVIATIONS: d = 'cache'
         decos = [d] if rng.random() < 0.8 else [d, rng.choice(['try_none', 'kwargs_support', 'cache'])]
-        cases.append(dict(kind='stack', decos=decos, raises=rng.random() < 0.1, **sig, **call))
+        case = dict(kind='stack', decos=decos, raises=rng.random() < 0.1, **sig, **call)
+        r = rng.random()
+        if r < 0.35 and all(dv is not None for _, dv in sig['ko']): case['partial'] = True       # spelled as functools.partial(g, k = 7, ...)
+        elif r < 0.5: case['ann'] = True
+        if rng.random() < 0.2: case['kinds'] = True
+        cases.append(case)
     by_sig = {}
     for sig, call in ko_valid:
         if not ko_deviates(sig, call, 'bind') or INCLUDE_KWONLY_DEVIATIONS: by_sig.setdefault(json.dumps(sig, sort_keys=True), (sig, []))[1].append(call)
@@ -650,6 +678,7 @@ def gen_cases(rng, tier):
         if 'try_none' in case['decos'] and rng.random() < 0.4: case['tryv'] = rng.choice(list(FALLBACK))
         if 'loop' in case['decos'] and rng.random() < 0.4: case['loopv'] = rng.choice(LOOPV)
         if rng.random() < 0.3: case['kinds'] = True
+        if rng.random() < 0.15: case['ann'] = True          # the same function with annotations (parameters, *args, **kw, return)
         return case
     for d in DECOS:
         for sig, call in valid:
